@@ -222,13 +222,16 @@ def addHeaders (width : Int) (ttl subtitle author email description : Str) (tuni
     else result
   result ++ [[], []]
 
-/-- `from_Composition(composition, width)` with every track on the default tuning -/
-def fromComposition (ttl subtitle author email description : Str) (tracks : List (List TBar)) (width : Int) : Except Err (List Line) := do
-  let header := addHeaders width ttl subtitle author email description (tracks.map fun _ => (lit "Guitar", lit "Standard tuning"))
+/-- `from_Composition(composition, width)`: every track is drawn on its OWN tuning (given as (instrument, description,
+    strings)), a track without one on the default tuning -/
+def fromComposition (ttl subtitle author email description : Str) (tracks : List (Option (Str × Str × Tuning) × List TBar))
+    (width : Int) : Except Err (List Line) := do
+  let header := addHeaders width ttl subtitle author email description
+    (tracks.map fun t => match t.1 with | some x => (x.1, x.2.1) | none => (lit "Guitar", lit "Standard tuning"))
   let w := getWidth width
   if w = 0 then .error .zeroDiv
   let bars := width / w
-  let maxlen := tracks.foldl (fun m t => if t.length > m then t.length else m) 0
+  let maxlen := tracks.foldl (fun m t => if t.2.length > m then t.2.length else m) 0
   if tracks = [] then .error .value            -- max() of an empty sequence
   let rec rows (fuel : Nat) (barindex : Nat) (result : List Line) : Except Err (List Line) :=
     match fuel with
@@ -239,10 +242,10 @@ def fromComposition (ttl subtitle author email description : Str) (tracks : List
         let (result, _) ← tracks.foldlM (fun (acc : List Line × Bool) tr => do
           let (result, notfirst) := acc
           let ascii ← (List.range bars.toNat).foldlM (fun (ascii : List Line) x => do
-            match tr[barindex + x]? with
+            match tr.2[barindex + x]? with
             | none => pure ascii
             | some bar => do
-              let r ← fromBar defaultTuning bar w
+              let r ← fromBar (match tr.1 with | some x => x.2.2 | none => defaultTuning) bar w
               let barstart := find2 (r.getD 1 []) + 2
               let r := if notfirst then
                   (match r with
